@@ -154,10 +154,18 @@ def gen_derived(rng, exotic=False):
     """a got and a want derived from it"""
     letters = 'ab. \n' if not exotic else 'ab. \n\t\r\x0b\x0c\x1c\x85\xa0  　'
     n = rng.randint(0, 14)
+    nops = rng.randint(0, 3)
+    long = rng.random() < 0.12
+    if long:
+        # long texts with many wildcards (sizes no hand-written example reaches)
+        n = rng.randint(15, 90)
+        nops = rng.randint(4, 32)
     got = ''.join(rng.choice(letters) for _ in range(n))
     want = got
-    for _ in range(rng.randint(0, 3)):
+    for _ in range(nops):
         op = rng.randint(0, 5)
+        if long and rng.random() < 0.7:
+            op = 0
         if op <= 1 and want:
             i = rng.randint(0, len(want))
             j = min(len(want), i + rng.randint(0, 4))
